@@ -314,6 +314,17 @@ func (x *Exec) callInner(st *State, call *ast.CallExpr) []Term {
 		return rs
 	}
 	ct, cpkg, ccs := x.w.contractFor(x.u.pkg, fn)
+	// A unit may ask for a named variant of an assumed dependency contract (`option variant <name>` selects
+	// `assume func pkg.F@<name>` from std.spec where one exists): a richer statement of the same dependency that only the
+	// units which need it pay for in solver time (e.g. the position witnesses of slices.Sort's permutation).
+	if x.ct != nil && x.ct.Options["variant"] != "" && fn.Pkg() != nil {
+		for _, v := range strings.Fields(x.ct.Options["variant"]) {
+			if vct := x.w.std.Funcs[fn.Pkg().Name()+"."+funcKey(fn)+"@"+v]; vct != nil {
+				ct, cpkg, ccs = vct, x.u.pkg, x.w.std
+				c.note("assumed contract variant used: " + fn.Pkg().Name() + "." + funcKey(fn) + "@" + v)
+			}
+		}
+	}
 	sig := fn.Type().(*types.Signature)
 	// evaluate receiver and arguments
 	var recvExpr ast.Expr
